@@ -312,56 +312,51 @@ func c19weights(c *Ctx, info *types.Info, p *pkgT, netT *types.Named) {
 		}
 	}
 	if wfd := c.P.Decl(wm); wfd != nil {
-		timeC, distC := p.Types.Scope().Lookup("Time"), p.Types.Scope().Lookup("Distance")
-		msg := "no switch on the minimisation option"
-		ast.Inspect(wfd.Body, func(n ast.Node) bool {
-			sw, ok := n.(*ast.SwitchStmt)
-			if !ok || sw.Tag == nil {
-				return true
-			}
-			msg = ""
-			seen := map[string]bool{}
-			for _, cl := range sw.Body.List {
-				cc := cl.(*ast.CaseClause)
-				var ret *ast.ReturnStmt
-				for _, s := range cc.Body {
-					if r, ok := s.(*ast.ReturnStmt); ok {
-						ret = r
+		// every return of an edge field in Weight (or in a helper it calls with the edge) stands under a
+		// test of the minimisation option — a case clause or an `if opt == Const` — and returns that
+		// option's field; both options are handled; nothing else returns a weight by default
+		seen := map[string]bool{}
+		msg := ""
+		var scan func(fd *ast.FuncDecl, depth int)
+		scan = func(fd *ast.FuncDecl, depth int) {
+			ast.Inspect(fd.Body, func(n ast.Node) bool {
+				switch x := n.(type) {
+				case *ast.ReturnStmt:
+					if len(x.Results) < 1 {
+						return true
 					}
-				}
-				if cc.List == nil {
-					if ret != nil {
-						msg = "the default case returns a weight"
+					sel, ok := unparen(x.Results[0]).(*ast.SelectorExpr)
+					if !ok || (sel.Sel.Name != timeField && sel.Sel.Name != lengthField) {
+						return true
 					}
-					continue
-				}
-				for _, e := range cc.List {
-					o := objOf(info, e)
-					want := ""
-					switch o {
-					case timeC:
-						want = timeField
-					case distC:
-						want = lengthField
+					opt := c19option(info, p, fd, x)
+					want := map[string]string{"Time": timeField, "Distance": lengthField}[opt]
+					switch {
+					case opt == "":
+						if msg == "" {
+							msg = "`" + src(x) + "` returns an edge field without a test of the minimisation option"
+						}
+					case sel.Sel.Name != want:
+						if msg == "" {
+							msg = "minimising " + opt + " weighs an edge by `" + src(x.Results[0]) + "`, want its " + want + " field"
+						}
 					default:
-						continue
+						seen[opt] = true
 					}
-					seen[o.Name()] = true
-					if ret == nil || len(ret.Results) < 1 {
-						msg = "case " + o.Name() + " returns no weight"
-						continue
-					}
-					sel, ok := unparen(ret.Results[0]).(*ast.SelectorExpr)
-					if !ok || sel.Sel.Name != want {
-						msg = "minimising " + o.Name() + " weighs an edge by `" + src(ret.Results[0]) + "`, want its " + want + " field"
+				case *ast.CallExpr:
+					if depth < 2 {
+						if f := callee(info, x); f != nil && c.P.Decl(f) != nil && c.P.DeclPkg(f) == p && f != wm {
+							scan(c.P.Decl(f), depth+1)
+						}
 					}
 				}
-			}
-			if msg == "" && (!seen["Time"] || !seen["Distance"]) {
-				msg = "the option switch does not handle both Time and Distance"
-			}
-			return false
-		})
+				return true
+			})
+		}
+		scan(wfd, 0)
+		if msg == "" && (!seen["Time"] || !seen["Distance"]) {
+			msg = "Weight does not return the time field under Time and the length field under Distance (found: " + fmt.Sprint(seen) + ")"
+		}
 		if msg == "" {
 			c.OK("C19.R3", c.P.FuncName(wm)+"#option", wfd.Pos(), "Time→%s, Distance→%s", timeField, lengthField)
 		} else {
@@ -377,89 +372,259 @@ func c19weights(c *Ctx, info *types.Info, p *pkgT, netT *types.Named) {
 		c.Unk("C19.R3", "route.(Network).ShortestRoute", token.NoPos, "API anchor does not resolve")
 		return
 	}
-	ssc := newFnScope(info, sfd.Body)
-	msg := "no loop over the path's nodes"
-	for _, st := range sfd.Body.List {
-		l := ssc.loopOf(st)
-		if l == nil {
-			continue
+	// the loop that turns the node path into links and totals: in ShortestRoute or in a helper it calls
+	type found struct {
+		fd          *ast.FuncDecl
+		loop        ast.Stmt
+		body        *ast.BlockStmt
+		route, dist, tim types.Object
+		msg         string
+	}
+	var hit *found
+	isNeighborsLookup := func(e ast.Expr) (x, y ast.Expr, ok bool) {
+		o, ok1 := unparen(e).(*ast.IndexExpr)
+		if !ok1 {
+			return nil, nil, false
 		}
-		// pair use nodes[i], nodes[i+1]
-		offs := map[int64]bool{}
-		var nodes types.Object
-		ast.Inspect(l.Body, func(n ast.Node) bool {
-			if ix, ok := n.(*ast.IndexExpr); ok {
-				if off, ok := ssc.idxOffset(ix.Index, l.Idx); ok {
-					if o := objOf(info, ix.X); o != nil {
-						nodes = o
-						offs[off] = true
+		in, ok2 := unparen(o.X).(*ast.IndexExpr)
+		if !ok2 {
+			return nil, nil, false
+		}
+		if _, isMap := info.TypeOf(in.X).Underlying().(*types.Map); !isMap {
+			return nil, nil, false
+		}
+		return in.Index, o.Index, true
+	}
+	var search func(fd *ast.FuncDecl, depth int)
+	search = func(fd *ast.FuncDecl, depth int) {
+		if hit != nil {
+			return
+		}
+		ast.Inspect(fd.Body, func(n ast.Node) bool {
+			if hit != nil {
+				return false
+			}
+			var body *ast.BlockStmt
+			switch x := n.(type) {
+			case *ast.ForStmt:
+				body = x.Body
+			case *ast.RangeStmt:
+				body = x.Body
+			case *ast.CallExpr:
+				if depth < 2 {
+					if f := callee(info, x); f != nil && c.P.Decl(f) != nil && c.P.DeclPkg(f) == p {
+						search(c.P.Decl(f), depth+1)
 					}
 				}
+				return true
+			default:
+				return true
 			}
-			return true
-		})
-		if nodes == nil {
-			continue
-		}
-		msg = ""
-		if !(offs[0] && offs[1] && len(offs) == 2) {
-			msg = "the loop does not look up the link between consecutive path nodes"
-		}
-		if !(l.Lo.ok && l.Lo.Of == nil && l.Lo.K == 0 && l.Hi.ok && l.Hi.K == -1 && l.Hi.Of != nil && objOf(info, l.Hi.Of) == nodes) {
-			msg = "the loop " + l.String() + " does not visit every consecutive pair of path nodes (0..len-2)"
-		}
-		brk, cont, _ := earlyExits(l.Body)
-		if len(brk)+len(cont) > 0 {
-			msg = "the route loop has break/continue"
-		}
-		// e := neighbors[a][b]; route = append(route, e.X); distance += e.length; time += e.time
-		var ev types.Object
-		sums := map[string]bool{}
-		appended := false
-		for _, bs := range l.Body.List {
-			as, ok := bs.(*ast.AssignStmt)
-			if !ok {
-				continue
-			}
-			if len(as.Rhs) == 1 {
-				if _, isIdx := unparen(as.Rhs[0]).(*ast.IndexExpr); isIdx && ev == nil {
-					ev = objOf(info, as.Lhs[0])
+			// does the body accumulate e.length and e.time of a looked-up link?
+			var ev types.Object
+			var kx, ky ast.Expr
+			h := &found{fd: fd, loop: n.(ast.Stmt), body: body}
+			for _, bs := range body.List {
+				as, ok := bs.(*ast.AssignStmt)
+				if !ok || len(as.Rhs) != 1 {
 					continue
 				}
-				if call, ok := unparen(as.Rhs[0]).(*ast.CallExpr); ok && builtinName(info, call) == "append" && len(call.Args) == 2 {
-					if rootObj(info, call.Args[1]) == ev && ev != nil {
-						appended = true
-					}
+				if x, y, ok := isNeighborsLookup(as.Rhs[0]); ok && ev == nil {
+					ev, kx, ky = objOf(info, as.Lhs[0]), x, y
 					continue
+				}
+				if ev == nil {
+					continue
+				}
+				if call, ok := unparen(as.Rhs[0]).(*ast.CallExpr); ok && builtinName(info, call) == "append" && len(call.Args) == 2 && rootObj(info, call.Args[1]) == ev {
+					h.route = objOf(info, as.Lhs[0])
 				}
 				if as.Tok == token.ADD_ASSIGN {
-					if sel, ok := unparen(as.Rhs[0]).(*ast.SelectorExpr); ok && objOf(info, sel.X) == ev && ev != nil {
-						sums[objOf(info, as.Lhs[0]).Name()+"+="+sel.Sel.Name] = true
+					if sel, ok := unparen(as.Rhs[0]).(*ast.SelectorExpr); ok && objOf(info, sel.X) == ev {
+						switch sel.Sel.Name {
+						case lengthField:
+							h.dist = objOf(info, as.Lhs[0])
+						case timeField:
+							h.tim = objOf(info, as.Lhs[0])
+						}
 					}
 				}
 			}
-		}
-		if msg == "" && !appended {
-			msg = "the link looked up for the pair is not the one appended to the route"
-		}
-		if msg == "" && !(sums["distance+="+lengthField] && sums["time+="+timeField]) {
-			msg = "the totals do not add the appended link's length to distance and its time to time"
-		}
-		// the route and the two totals are written by this loop only
-		if msg == "" {
-			results := map[types.Object]bool{}
-			for _, rv := range resultVars(info, sfd.Type) {
-				if rv != nil && (rv.Name() == "distance" || rv.Name() == "time" || isNamed(rv.Type(), modPath, "MultiLineString")) {
-					results[rv] = true
+			if ev == nil || (h.dist == nil && h.tim == nil && h.route == nil) {
+				return true
+			}
+			hit = h
+			if h.route == nil {
+				h.msg = "the link looked up for a pair of path nodes is not appended to the route"
+			} else if h.dist == nil || h.tim == nil {
+				h.msg = "the totals do not add the appended link's " + lengthField + " and " + timeField
+			}
+			if brk, cont, _ := earlyExits(body); len(brk)+len(cont) > 0 && h.msg == "" {
+				h.msg = "the route loop has break/continue: links after it are missing from the route and the totals"
+			}
+			// consecutive pairs
+			if h.msg == "" {
+				sc := newFnScope(info, fd.Body)
+				idOf := func(e ast.Expr) ast.Expr { // X.ID() → X ; a local defined as X.ID() → X
+					e = unparen(e)
+					if o := objOf(info, e); o != nil {
+						if d := sc.singleDef(o); d != nil {
+							e = unparen(d)
+						}
+					}
+					if call, ok := e.(*ast.CallExpr); ok && len(call.Args) == 0 {
+						if sel, ok := unparen(call.Fun).(*ast.SelectorExpr); ok && sel.Sel.Name == "ID" {
+							return unparen(sel.X)
+						}
+					}
+					return nil
 				}
+				okPairs := false
+				if l := sc.loopOf(h.loop); l != nil && l.Idx != nil {
+					// idiom A: X[i], X[i+1] over [0, len-1)
+					ax, ay := idOf(kx), idOf(ky)
+					ix, okx := ax.(*ast.IndexExpr)
+					iy, oky := ay.(*ast.IndexExpr)
+					if okx && oky && sameExpr(info, ix.X, iy.X) {
+						o1, ok1 := sc.idxOffset(ix.Index, l.Idx)
+						o2, ok2 := sc.idxOffset(iy.Index, l.Idx)
+						full := l.Lo.ok && l.Lo.Of == nil && l.Lo.K == 0 && l.Hi.ok && l.Hi.K == -1 && l.Hi.Of != nil && sameExpr(info, l.Hi.Of, ix.X)
+						if ok1 && ok2 && o1 == 0 && o2 == 1 && full {
+							okPairs = true
+						} else if ok1 && ok2 {
+							h.msg = "the loop " + l.String() + " with nodes [i" + fmt.Sprintf("%+d", o1) + "], [i" + fmt.Sprintf("%+d", o2) + "] does not visit every consecutive pair of path nodes (0..len-2)"
+						}
+					}
+				}
+				if rs, ok := h.loop.(*ast.RangeStmt); ok && !okPairs && h.msg == "" {
+					// idiom B: for _, n := range X[1:] { …neighbors[prev][n.ID()]…; prev = n.ID() } with prev := X[0].ID()
+					if se, ok := unparen(rs.X).(*ast.SliceExpr); ok && se.High == nil && rs.Value != nil {
+						lowOne := false
+						if k, ok := constInt(info, se.Low); ok && k == 1 {
+							lowOne = true
+						}
+						cur := objOf(info, rs.Value)
+						prev := objOf(info, kx)
+						curID := idOf(ky)
+						isCur := curID != nil && objOf(info, curID) == cur
+						// prev initialised from X[0].ID() before the loop, reassigned to the current id as last statement
+						initOK, stepOK := false, false
+						if prev != nil {
+							for _, d := range sc.defs[prev] {
+								if d == nil {
+									continue
+								}
+								if x := idOf(d); x != nil {
+									if ix, ok := x.(*ast.IndexExpr); ok && sameExpr(info, ix.X, se.X) {
+										if k, ok := constInt(info, ix.Index); ok && k == 0 && d.Pos() < rs.Pos() {
+											initOK = true
+										}
+									}
+								}
+							}
+							if n := len(body.List); n > 0 {
+								if as, ok := body.List[n-1].(*ast.AssignStmt); ok && len(as.Lhs) == 1 && objOf(info, as.Lhs[0]) == prev && as.Tok == token.ASSIGN {
+									if x := idOf(as.Rhs[0]); x != nil && objOf(info, x) == cur {
+										stepOK = true
+									} else if o := objOf(info, as.Rhs[0]); o != nil && o == objOf(info, ky) {
+										stepOK = true
+									}
+								}
+							}
+						}
+						if lowOne && isCur && initOK && stepOK {
+							okPairs = true
+						}
+					}
+				}
+				if !okPairs && h.msg == "" {
+					h.msg = "?the way the loop pairs consecutive path nodes is not one of the recognised forms (nodes[i], nodes[i+1] over 0..len-2; or range over nodes[1:] with the previous node carried along)"
+				}
+			}
+			return false
+		})
+	}
+	search(sfd, 0)
+	msg := ""
+	switch {
+	case hit == nil:
+		msg = "no loop turning the node path into links and totals found in ShortestRoute or its helpers"
+	case hit.msg != "":
+		msg = hit.msg
+	default:
+		// the accumulated values are what ShortestRoute reports: either they are its named results, or the
+		// helper returns them and ShortestRoute assigns the call to (route, distance, time); nothing else writes them
+		results := map[string]types.Object{}
+		for _, rv := range resultVars(info, sfd.Type) {
+			if rv != nil {
+				results[rv.Name()] = rv
+			}
+		}
+		var target [3]types.Object // route, distance, time results of ShortestRoute
+		for _, rv := range resultVars(info, sfd.Type) {
+			if rv == nil {
+				continue
+			}
+			switch {
+			case isNamed(rv.Type(), modPath, "MultiLineString"):
+				target[0] = rv
+			case rv.Name() == "distance":
+				target[1] = rv
+			case rv.Name() == "time":
+				target[2] = rv
+			}
+		}
+		var writer ast.Node // the statement in ShortestRoute that legitimately writes the three results
+		if hit.fd == sfd {
+			if hit.route != target[0] || hit.dist != target[1] || hit.tim != target[2] {
+				msg = "the loop accumulates into variables that are not ShortestRoute's route/distance/time results"
+			}
+			writer = hit.loop
+		} else {
+			// helper: returns (route, dist, time) in that order; ShortestRoute assigns them in that order
+			order := [3]types.Object{hit.route, hit.dist, hit.tim}
+			okRet := false
+			ast.Inspect(hit.fd.Body, func(n ast.Node) bool {
+				if r, ok := n.(*ast.ReturnStmt); ok && len(r.Results) == 3 && r.Pos() > hit.loop.End() {
+					if objOf(info, r.Results[0]) == order[0] && objOf(info, r.Results[1]) == order[1] && objOf(info, r.Results[2]) == order[2] {
+						okRet = true
+					}
+				}
+				return true
+			})
+			if !okRet {
+				hr := resultVars(info, hit.fd.Type)
+				if len(hr) == 3 && hr[0] == order[0] && hr[1] == order[1] && hr[2] == order[2] {
+					okRet = true
+				}
+			}
+			if !okRet {
+				msg = "the helper does not return the accumulated route, distance and time (in that order)"
 			}
 			ast.Inspect(sfd.Body, func(n ast.Node) bool {
 				as, ok := n.(*ast.AssignStmt)
-				if !ok || (as.Pos() >= l.Body.Pos() && as.End() <= l.Body.End()) {
+				if !ok || len(as.Rhs) != 1 || len(as.Lhs) != 3 {
+					return true
+				}
+				if call, ok := unparen(as.Rhs[0]).(*ast.CallExpr); ok && c.P.Decl(callee(info, call)) == hit.fd {
+					if objOf(info, as.Lhs[0]) == target[0] && objOf(info, as.Lhs[1]) == target[1] && objOf(info, as.Lhs[2]) == target[2] {
+						writer = as
+					}
+				}
+				return true
+			})
+			if writer == nil && msg == "" {
+				msg = "ShortestRoute does not assign the helper's (route, distance, time) to its results in that order"
+			}
+		}
+		if msg == "" {
+			ast.Inspect(sfd.Body, func(n ast.Node) bool {
+				as, ok := n.(*ast.AssignStmt)
+				if !ok || n == writer || (writer != nil && as.Pos() >= writer.Pos() && as.End() <= writer.End()) {
 					return true
 				}
 				for _, lh := range as.Lhs {
-					if o := objOf(info, lh); o != nil && results[o] && msg == "" {
+					if o := objOf(info, lh); o != nil && (o == target[0] || o == target[1] || o == target[2]) && msg == "" {
 						msg = "`" + src(as) + "` overwrites `" + o.Name() + "` outside the loop over the route's links: the reported total is no longer the sum over the returned links (for unconnected nodes the search cost is +Inf while the route is empty)"
 					}
 				}
@@ -467,9 +632,12 @@ func c19weights(c *Ctx, info *types.Info, p *pkgT, netT *types.Named) {
 			})
 		}
 	}
-	if msg == "" {
-		c.OK("C19.R3", c.P.FuncName(sr)+"#totals", sfd.Pos(), "every consecutive pair; appended link's %s and %s summed", lengthField, timeField)
-	} else {
+	switch {
+	case msg == "":
+		c.OK("C19.R3", c.P.FuncName(sr)+"#totals", sfd.Pos(), "every consecutive pair of path nodes; the looked-up link is appended and its %s and %s are summed into the reported totals, which nothing else writes", lengthField, timeField)
+	case strings.HasPrefix(msg, "?"):
+		c.Unk("C19.R3", c.P.FuncName(sr)+"#totals", sfd.Pos(), "%s", msg[1:])
+	default:
 		c.Bad("C19.R3", c.P.FuncName(sr)+"#totals", sfd.Pos(), "%s", msg)
 	}
 }
@@ -536,7 +704,6 @@ func c19symmetric(c *Ctx, info *types.Info, p *pkgT) {
 func c19heuristicReturns(c *Ctx, info *types.Info, p *pkgT, h *types.Func, fd *ast.FuncDecl) {
 	sc := newFnScope(info, fd.Body)
 	ps := paramVars(info, fd.Type)
-	timeC, distC := p.Types.Scope().Lookup("Time"), p.Types.Scope().Lookup("Distance")
 	mentions := func(e ast.Expr, o types.Object) bool {
 		found := false
 		ast.Inspect(e, func(n ast.Node) bool {
@@ -606,19 +773,7 @@ func c19heuristicReturns(c *Ctx, info *types.Info, p *pkgT, h *types.Func, fd *a
 		cons := fmt.Sprintf("%s#return:%s", c.P.FuncName(h), src(r.Results[0]))
 		k := kind(r.Results[0])
 		// which minimisation option is this return under?
-		opt := ""
-		for _, anc := range enclosing(fd.Body, r) {
-			if cc, ok := anc.(*ast.CaseClause); ok {
-				for _, e := range cc.List {
-					switch objOf(info, e) {
-					case timeC:
-						opt += "Time"
-					case distC:
-						opt += "Distance"
-					}
-				}
-			}
-		}
+		opt := c19option(info, p, fd, r)
 		switch {
 		case k == "":
 			c.Bad("C19.R2", cons, r.Pos(), "the heuristic returns `%s`, which is not 0, the straight-line distance between the two nodes, or that distance over the maximum speed: nothing makes it a lower bound of the cheapest route's cost (a direct link's own weight, for example, exceeds a cheaper detour), so A* may settle the destination through a non-minimal route", src(r.Results[0]))
@@ -739,4 +894,49 @@ func c19queryPure(c *Ctx, info *types.Info, p *pkgT, netT *types.Named) {
 	if nWrites == 0 {
 		c.OK("C19.R5", "route.(Network).ShortestRoute#no-writes", c.P.Decl(sr).Pos(), "%d functions reachable from the query; none assigns to the network or to package-level state", len(order))
 	}
+}
+
+// c19option tells under which minimisation option a node of fd executes: the constant named in an
+// enclosing case clause, or in the condition of an enclosing `if X == Const` (node in the body) /
+// `if X != Const` (node in the else branch).  "" when neither.
+func c19option(info *types.Info, p *pkgT, fd *ast.FuncDecl, n ast.Node) string {
+	timeC, distC := p.Types.Scope().Lookup("Time"), p.Types.Scope().Lookup("Distance")
+	name := func(o types.Object) string {
+		switch o {
+		case timeC:
+			return "Time"
+		case distC:
+			return "Distance"
+		}
+		return ""
+	}
+	opt := ""
+	for _, anc := range enclosing(fd.Body, n) {
+		switch x := anc.(type) {
+		case *ast.CaseClause:
+			for _, e := range x.List {
+				if nm := name(objOf(info, e)); nm != "" {
+					opt += nm
+				}
+			}
+		case *ast.IfStmt:
+			b, ok := unparen(x.Cond).(*ast.BinaryExpr)
+			if !ok || (b.Op != token.EQL && b.Op != token.NEQ) {
+				continue
+			}
+			nm := name(objOf(info, b.Y))
+			if nm == "" {
+				nm = name(objOf(info, b.X))
+			}
+			if nm == "" {
+				continue
+			}
+			inBody := containsNode(x.Body, n)
+			inElse := x.Else != nil && containsNode(x.Else, n)
+			if (b.Op == token.EQL && inBody) || (b.Op == token.NEQ && inElse) {
+				opt += nm
+			}
+		}
+	}
+	return opt
 }
